@@ -72,3 +72,64 @@ Example C22_example :
   | _ => ([], [])
   end = ([("a", "b", 25); ("a", "c", 5); ("world", "c", 45)], [(("a", "USD"), 20)]).
 Proof. vm_compute. reflexivity. Qed.
+
+(* ---------- the machine itself: the emitted bytecode computes what Sem computes ----------
+   For every successful run of Sem there is the environment of the run such that executing the instruction stream the
+   compiler model emits (Compile.gen; equal byte for byte to the real compiler's output on every program of the tie
+   `nsbc`), with APUSH operands read by their denotation, ends with an empty stack and exactly Sem's postings (same
+   order), metadata and tracked balances: C22 / C23 / C28 therefore hold of that instruction stream, not only of Sem.
+   Covers all statement forms. The concrete level (addresses, resolved resource table) is C22_machine_refines_sem below. *)
+From LV Require Import Machine.EnvProofs Machine.Vm Machine.Compile Machine.CompileCorrect.
+Theorem C22_machine_refines_sem_code : forall p given s r, run p given s = Ok r ->
+  exists te e, chk_vars [] (pvars p) = Some te /\ cons_env te e /\ env_valid e /\
+    exec (sym_look e) (code (sp_events (gen p))) (vm_init (rinit r)) =
+    Ok {| vstk := []; vbal := rbal r; vposts := all_postings r; vtx := rtx r; vacc := racc r |}.
+Proof. exact code_refines_sem. Qed.
+Print Assumptions C22_machine_refines_sem_code.
+
+(* every construct, as an equation between executing its code and its big-step meaning (here: whole statements) *)
+Theorem C22_statement_code : forall te e ve, cons_env te e -> venv_ok te ve ->
+  forall s, chk_stmt te s = true -> forall k stk ms,
+  exec (sym_look e) (code (gen_stmt ve s) ++ k) (vm_of ms stk) = do ms1 <- exec_stmt e s ms; exec (sym_look e) k (vm_of ms1 stk).
+Proof. intros te e ve Hc Hv. exact (exec_stmt_correct te e ve Hc Hv). Qed.
+Print Assumptions C22_statement_code.
+
+(* ---------- the concrete machine = Sem (Machine/RunCorrect.v) ----------
+   FRAGMENT COVERED: every program, every variables JSON, every store -- no restriction.
+   vm_run = Compile.compile (check, gen, address assignment: instructions, concrete resource table, needed balances)
+   followed by VmRun.run_program (ParseVariablesJSON, ResolveResources in table order, ResolveBalances, Execute on the
+   bytecode VM of Vm.v with operands read from the resolved table, final stack check).  Its outcome -- error class, or
+   postings in order, transaction metadata, account metadata, tracked balances at the end and at the start -- is the
+   outcome of Sem.run.  Hence every theorem about Sem.run (C22, C23, C27, C28) is a theorem about the compiled program
+   on the machine; C22_machine_send / C22_machine_balances restate the two C22 theorems that way. *)
+From LV Require Import Machine.VmRun Machine.RunCorrect.
+Theorem C22_machine_refines_sem : forall p given s, vm_run p given s = flat_outcome (run p given s).
+Proof. exact vm_run_correct. Qed.
+Print Assumptions C22_machine_refines_sem.
+
+Theorem C22_machine_send : forall p given s vr, vm_run p given s = Ok vr ->
+  exists e groups, Forall2 (stmt_guarantee e) (pstmts p) groups /\ vr_posts vr = List.concat groups.
+Proof. exact vm_send. Qed.
+Print Assumptions C22_machine_send.
+
+Theorem C22_machine_balances : forall p given s vr, vm_run p given s = Ok vr ->
+  exists saved, forall k v, fst k <> "world" -> bget (vr_init vr) k = Some v ->
+    v = store_balance s k /\
+    bget (vr_bal vr) k = Some (v + effect (fst k) (snd k) (vr_posts vr) - saved_for k saved).
+Proof. exact vm_balances. Qed.
+Print Assumptions C22_machine_balances.
+
+(* non-vacuity: the program of C22_example through compile + the bytecode VM *)
+Example C22_machine_example :
+  let p := {| pvars := [];
+              pstmts := [ Send (MonLit (AssetLit "USD") 100)
+                               (VSrc (SInOrder (SCons (SMaxed (MonLit (AssetLit "USD") 30) (SAccount (AccLit "a") OdNone))
+                                               (SCons (SAccount (AccLit "world") OdNone) SNil))))
+                               (DAllot (DACons (PConst (1#4)) Kept
+                                       (DACons (PConst (1#4)) (To (DAccount (AccLit "b")))
+                                       (DACons PRemaining (To (DAccount (AccLit "c"))) DANil)))) ] |} in
+  match vm_run p [] {| st_bal := [(("a", "USD"), 50)]; st_meta := [] |} with
+  | Ok vr => (map (fun q => (psrc q, pdst q, pamt q)) (vr_posts vr), vr_bal vr)
+  | _ => ([], [])
+  end = ([("a", "b", 25); ("a", "c", 5); ("world", "c", 45)], [(("a", "USD"), 20)]).
+Proof. vm_compute. reflexivity. Qed.
